@@ -9,6 +9,11 @@ VERIF = os.path.dirname(os.path.dirname(os.path.abspath(__file__)))
 def one(sd):
     name = os.path.basename(sd)
     pid = name.split("-")[0]
+    try:
+        if json.load(open(os.path.join(sd, "meta.json"))).get("obsolete"):
+            return name, "obsolete", ""
+    except Exception:
+        pass
     tmp = tempfile.mkdtemp(prefix="seedrun.")
     try:
         shutil.copytree("/repo/src", os.path.join(tmp, "src"), ignore=shutil.ignore_patterns("__pycache__", "*.egg-info"))
